@@ -142,7 +142,7 @@ func TestVerifC04(t *testing.T) {
 			}
 			nsteps := 8 + r.intn(16)
 			for j := 0; j < nsteps && viol == ""; j++ {
-				switch r.pick(10, 7, 2, 2, 3) {
+				switch r.pick(10, 7, 2, 2, 3, 3) {
 				case 0, 4:
 					// one message, or (batching server) a group sent back to back
 					k := 1
@@ -224,6 +224,21 @@ func TestVerifC04(t *testing.T) {
 					v.follower(f, o)
 					stats["step/follower"]++
 					observe(vM{"op": "follower", "r": f, "o": o})
+				case 5:
+					// a replication request that was sent under an earlier leader epoch arrives late: it says that
+					// the replica has everything; the leader must not take its offset for the replica's progress
+					if rf < 2 {
+						continue
+					}
+					f := []string{"b", "c"}[:rf-1][r.intn(rf-1)]
+					nw := v.p.log.NewestOffset()
+					_, epoch := v.p.GetLeader()
+					if nw < 0 || epoch < 2 {
+						continue
+					}
+					v.followerAt(f, nw, epoch-1)
+					stats["step/stale-follower"]++
+					observe(vM{"op": "stale", "r": f, "o": nw})
 				case 2:
 					var cands []string
 					for _, f := range []string{"b", "c"}[:rf-1] {
